@@ -1446,37 +1446,7 @@ def c01(ctx):
     import cases
     prelude = ('#![allow(dead_code)]\nuse educe::Educe; #[allow(unused_imports)] use probes::*; #[allow(unused_imports)] use ::core::marker::PhantomData; '
                'pub trait Bnd {} pub trait Usr {} pub trait Cst {} impl Bnd for u8 {} impl Usr for u8 {}')
-    lines = prelude.split('\n')
-    line_of = {}
-    for i, (item, extra, _) in enumerate(items):
-        lines.append('mod m%d { use super::*; %s %s }' % (i, item, extra))
-        line_of[len(lines)] = i
-    lines.append('fn main() {}')
-    d = cases.write_crate('C01', '\n'.join(lines) + '\n')
-    ok, diags, exe2, wall, stderr = cases.cargo_build(d)
-    ctx.info('cargo build C01: ok=%s, %d diagnostics, %.1fs' % (ok, len(diags), wall))
-    per = {i: {'errors': [], 'warnings': 0, 'msgs': []} for i in range(len(items))}
-    for m in diags:
-        msg = m.get('message', {})
-        lvl = msg.get('level')
-        if lvl not in ('error', 'warning'):
-            continue
-        hit = None
-        for sp in msg.get('spans', []):
-            if sp.get('line_start') in line_of:
-                hit = line_of[sp['line_start']]
-                break
-        if hit is None:
-            if lvl == 'error' and not msg.get('message', '').startswith('aborting due to'):
-                raise ToolError('unattributable rustc error: %s' % (msg.get('rendered') or msg.get('message'))[:1500])
-            continue
-        if lvl == 'error':
-            per[hit]['errors'].append((msg.get('code') or {}).get('code') or msg.get('message', '')[:80])
-        else:
-            per[hit]['warnings'] += 1
-        per[hit]['msgs'].append((msg.get('rendered') or msg.get('message', ''))[:1200])
-    if not ok and not any(p['errors'] for p in per.values()):
-        raise ToolError('cargo build failed without attributable errors:\n' + stderr[-2000:])
+    ok, per, stderr = rpipe.compile_only(ctx, 'C01', prelude, ['mod m%d { use super::*; %s %s }' % (i, item, extra) for i, (item, extra, _) in enumerate(items)])
     trace = os.path.join(ctx.workdir, 'ktrace.ndjson')
     with open(trace, 'w') as f:
         for i in range(len(items)):
